@@ -21,17 +21,22 @@ fn id_at(v: Option<&Vec<ReactorHandle>>, j: usize) -> SystemCommand { v.unwrap()
 
 /// the list `after` == `before` minus ONE occurrence of `target` (none if it does not occur), compared as MULTISETS:
 /// the properties do not promise an order among the reactors of one trigger, so a harmless reordering must not alarm.
-fn count_in(v: Option<&Vec<ReactorHandle>>, x: SystemCommand) -> usize { let n = len_of(v); let mut c = 0; let mut j = 0; while j < n { if id_at(v, j) == x { c += 1; } j += 1; } c }
-fn count_arr(v: &[SystemCommand], x: SystemCommand) -> usize { let mut c = 0; let mut j = 0; while j < v.len() { if v[j] == x { c += 1; } j += 1; } c }
+fn count_arr(v: &[SystemCommand], n: usize, x: SystemCommand) -> usize { let mut c = 0; let mut j = 0; while j < n { if v[j] == x { c += 1; } j += 1; } c }
 fn assert_first_removed(before: &[SystemCommand], after: Option<&Vec<ReactorHandle>>, target: SystemCommand) {
     let n = before.len();
-    let occurs = count_arr(before, target);
-    if occurs == 0 { assert!(len_of(after) == n, "revoke_*: an id that is not in the list => list unchanged"); }
-    else { assert!(len_of(after) == n - 1, "revoke_*: exactly one entry of the revoked id is removed from the named list"); }
-    assert!(count_in(after, target) == (if occurs == 0 { 0 } else { occurs - 1 }), "revoke_*: exactly one entry of the revoked id is removed (a second registration of the same reactor stays)");
+    // copy the ids out of the list once (cheap for CBMC: no repeated Vec indexing in the counting loops)
+    let m = len_of(after);
+    assert!(m <= n, "revoke_*: never adds entries");
+    let mut ids = [SystemCommand(Entity::PLACEHOLDER); 5];
+    let mut j = 0;
+    while j < m { ids[j] = id_at(after, j); j += 1; }
+    let occurs = count_arr(before, n, target);
+    if occurs == 0 { assert!(m == n, "revoke_*: an id that is not in the list => list unchanged"); }
+    else { assert!(m == n - 1, "revoke_*: exactly one entry of the revoked id is removed from the named list"); }
+    assert!(count_arr(&ids, m, target) == (if occurs == 0 { 0 } else { occurs - 1 }), "revoke_*: exactly one entry of the revoked id is removed (a second registration of the same reactor stays)");
     let mut j = 0;
     while j < n {
-        if before[j] != target { assert!(count_in(after, before[j]) == count_arr(before, before[j]), "revoke_*: the entries of every other reactor stay"); }
+        if before[j] != target { assert!(count_arr(&ids, m, before[j]) == count_arr(before, n, before[j]), "revoke_*: the entries of every other reactor stay"); }
         j += 1;
     }
 }
@@ -49,7 +54,7 @@ fn one(t: SystemCommand) -> Vec<ReactorHandle> { let mut v = Vec::with_capacity(
 // component (component table) hold one entry with the SAME id.
 // TABLE: 0 any_entity_event, 1 resource, 2 broadcast, 3 despawn(entity key), 4..6 component insertion/mutation/removal.
 // ---------------------------------------------------------------------------------------------------------------
-fn revoke_contract<const TABLE: u8, const L: usize, const NEIGH: bool>()
+fn revoke_contract<const TABLE: u8, const L: usize, const NEIGH: bool, const SIB: bool>()
 {
     let mut cache = ReactCache::default();
     let target = any_sys();
@@ -62,9 +67,9 @@ fn revoke_contract<const TABLE: u8, const L: usize, const NEIGH: bool>()
     let mut i = 0;
     while i < L { let s = any_sys(); before[i] = s; list.push(h(s)); i += 1; }
     // the table under test holds `list` under `key`; every other list under `key`, and the neighbour key, hold [target]
-    if TABLE == 0 { cache.any_entity_event_reactors.insert(key, list); if NEIGH { cache.any_entity_event_reactors.insert(other_key, one(target)); cache.broadcast_reactors.insert(key, one(target)); } }
-    else if TABLE == 1 { cache.resource_reactors.insert(key, list); if NEIGH { cache.resource_reactors.insert(other_key, one(target)); cache.broadcast_reactors.insert(key, one(target)); } }
-    else if TABLE == 2 { cache.broadcast_reactors.insert(key, list); if NEIGH { cache.broadcast_reactors.insert(other_key, one(target)); cache.any_entity_event_reactors.insert(key, one(target)); } }
+    if TABLE == 0 { cache.any_entity_event_reactors.insert(key, list); if NEIGH { cache.any_entity_event_reactors.insert(other_key, one(target)); } if SIB { cache.broadcast_reactors.insert(key, one(target)); } }
+    else if TABLE == 1 { cache.resource_reactors.insert(key, list); if NEIGH { cache.resource_reactors.insert(other_key, one(target)); } if SIB { cache.broadcast_reactors.insert(key, one(target)); } }
+    else if TABLE == 2 { cache.broadcast_reactors.insert(key, list); if NEIGH { cache.broadcast_reactors.insert(other_key, one(target)); } if SIB { cache.any_entity_event_reactors.insert(key, one(target)); } }
     else if TABLE == 3 { cache.despawn_reactors.insert(ekey, list); cache.despawn_reactors.insert(other_ekey, one(target)); }
     else {
         let mut cr = ComponentReactors{ insertion_callbacks: one(target), mutation_callbacks: one(target), removal_callbacks: one(target) };
@@ -87,15 +92,15 @@ fn revoke_contract<const TABLE: u8, const L: usize, const NEIGH: bool>()
     if TABLE == 0 {
         vlog!("REPLAY-OUTPUT list={:?}", dbg_list(cache.any_entity_event_reactors.get(&key)));
         assert_first_removed(&before, cache.any_entity_event_reactors.get(&key), target);
-        if NEIGH { assert_single(cache.any_entity_event_reactors.get(&other_key), target, OTHER); assert_single(cache.broadcast_reactors.get(&key), target, OTHER); }
+        if NEIGH { assert_single(cache.any_entity_event_reactors.get(&other_key), target, OTHER); } if SIB { assert_single(cache.broadcast_reactors.get(&key), target, OTHER); }
     } else if TABLE == 1 {
         vlog!("REPLAY-OUTPUT list={:?}", dbg_list(cache.resource_reactors.get(&key)));
         assert_first_removed(&before, cache.resource_reactors.get(&key), target);
-        if NEIGH { assert_single(cache.resource_reactors.get(&other_key), target, OTHER); assert_single(cache.broadcast_reactors.get(&key), target, OTHER); }
+        if NEIGH { assert_single(cache.resource_reactors.get(&other_key), target, OTHER); } if SIB { assert_single(cache.broadcast_reactors.get(&key), target, OTHER); }
     } else if TABLE == 2 {
         vlog!("REPLAY-OUTPUT list={:?}", dbg_list(cache.broadcast_reactors.get(&key)));
         assert_first_removed(&before, cache.broadcast_reactors.get(&key), target);
-        if NEIGH { assert_single(cache.broadcast_reactors.get(&other_key), target, OTHER); assert_single(cache.any_entity_event_reactors.get(&key), target, OTHER); }
+        if NEIGH { assert_single(cache.broadcast_reactors.get(&other_key), target, OTHER); } if SIB { assert_single(cache.any_entity_event_reactors.get(&key), target, OTHER); }
     } else if TABLE == 3 {
         vlog!("REPLAY-OUTPUT list={:?}", dbg_list(cache.despawn_reactors.get(&ekey)));
         assert_first_removed(&before, cache.despawn_reactors.get(&ekey), target);
@@ -112,68 +117,75 @@ fn revoke_contract<const TABLE: u8, const L: usize, const NEIGH: bool>()
 }
 
 //# id=K.cache.revoke.any_entity_event.L0 props=C06,C01 strength=bounded shape="list of length L=0 under the key, all ids symbolic; neighbour key and the 6 other lists hold one entry of the same id" tier=thorough fns=ReactCache::revoke_any_entity_event_reactor
-#[kani::proof] #[kani::unwind(6)] fn k_cache_revoke_any_entity_event_l0() { revoke_contract::<0, 0, true>(); }
+#[kani::proof] #[kani::unwind(6)] fn k_cache_revoke_any_entity_event_l0() { revoke_contract::<0, 0, true, false>(); }
 //# id=K.cache.revoke.any_entity_event.L1 props=C06,C01 strength=bounded shape="list of length L=1 under the key, all ids symbolic; neighbour key and the 6 other lists hold one entry of the same id" tier=quick fns=ReactCache::revoke_any_entity_event_reactor
-#[kani::proof] #[kani::unwind(6)] fn k_cache_revoke_any_entity_event_l1() { revoke_contract::<0, 1, true>(); }
-//# id=K.cache.revoke.any_entity_event.L2 props=C06,C01 strength=bounded shape="list of length L=2 under the key, all ids symbolic; neighbour key and the 6 other lists hold one entry of the same id" tier=thorough fns=ReactCache::revoke_any_entity_event_reactor
-#[kani::proof] #[kani::unwind(6)] fn k_cache_revoke_any_entity_event_l2() { revoke_contract::<0, 2, false>(); }
+#[kani::proof] #[kani::unwind(6)] fn k_cache_revoke_any_entity_event_l1() { revoke_contract::<0, 1, true, false>(); }
+//# id=K.cache.revoke.any_entity_event.L2 props=C06,C01 strength=bounded shape="list of length L=2 under the key, all ids symbolic; neighbour key and the 6 other lists hold one entry of the same id" tier=quick fns=ReactCache::revoke_any_entity_event_reactor
+#[kani::proof] #[kani::unwind(6)] fn k_cache_revoke_any_entity_event_l2() { revoke_contract::<0, 2, false, false>(); }
 //# id=K.cache.revoke.any_entity_event.L3 props=C06,C01 strength=bounded shape="list of length L=3 under the key, all ids symbolic; neighbour key and the 6 other lists hold one entry of the same id" tier=thorough fns=ReactCache::revoke_any_entity_event_reactor
-#[kani::proof] #[kani::unwind(6)] fn k_cache_revoke_any_entity_event_l3() { revoke_contract::<0, 3, false>(); }
+#[kani::proof] #[kani::unwind(6)] fn k_cache_revoke_any_entity_event_l3() { revoke_contract::<0, 3, false, false>(); }
 //# id=K.cache.revoke.resource.L0 props=C06,C01 strength=bounded shape="list of length L=0 under the key, all ids symbolic; neighbour key and the 6 other lists hold one entry of the same id" tier=thorough fns=ReactCache::revoke_resource_mutation_reactor
-#[kani::proof] #[kani::unwind(6)] fn k_cache_revoke_resource_l0() { revoke_contract::<1, 0, true>(); }
+#[kani::proof] #[kani::unwind(6)] fn k_cache_revoke_resource_l0() { revoke_contract::<1, 0, true, false>(); }
 //# id=K.cache.revoke.resource.L1 props=C06,C01 strength=bounded shape="list of length L=1 under the key, all ids symbolic; neighbour key and the 6 other lists hold one entry of the same id" tier=quick fns=ReactCache::revoke_resource_mutation_reactor
-#[kani::proof] #[kani::unwind(6)] fn k_cache_revoke_resource_l1() { revoke_contract::<1, 1, true>(); }
-//# id=K.cache.revoke.resource.L2 props=C06,C01 strength=bounded shape="list of length L=2 under the key, all ids symbolic; neighbour key and the 6 other lists hold one entry of the same id" tier=thorough fns=ReactCache::revoke_resource_mutation_reactor
-#[kani::proof] #[kani::unwind(6)] fn k_cache_revoke_resource_l2() { revoke_contract::<1, 2, false>(); }
+#[kani::proof] #[kani::unwind(6)] fn k_cache_revoke_resource_l1() { revoke_contract::<1, 1, true, false>(); }
+//# id=K.cache.revoke.resource.L2 props=C06,C01 strength=bounded shape="list of length L=2 under the key, all ids symbolic; neighbour key and the 6 other lists hold one entry of the same id" tier=quick fns=ReactCache::revoke_resource_mutation_reactor
+#[kani::proof] #[kani::unwind(6)] fn k_cache_revoke_resource_l2() { revoke_contract::<1, 2, false, false>(); }
 //# id=K.cache.revoke.resource.L3 props=C06,C01 strength=bounded shape="list of length L=3 under the key, all ids symbolic; neighbour key and the 6 other lists hold one entry of the same id" tier=thorough fns=ReactCache::revoke_resource_mutation_reactor
-#[kani::proof] #[kani::unwind(6)] fn k_cache_revoke_resource_l3() { revoke_contract::<1, 3, false>(); }
+#[kani::proof] #[kani::unwind(6)] fn k_cache_revoke_resource_l3() { revoke_contract::<1, 3, false, false>(); }
 //# id=K.cache.revoke.broadcast.L0 props=C06,C01 strength=bounded shape="list of length L=0 under the key, all ids symbolic; neighbour key and the 6 other lists hold one entry of the same id" tier=thorough fns=ReactCache::revoke_broadcast_reactor
-#[kani::proof] #[kani::unwind(6)] fn k_cache_revoke_broadcast_l0() { revoke_contract::<2, 0, true>(); }
+#[kani::proof] #[kani::unwind(6)] fn k_cache_revoke_broadcast_l0() { revoke_contract::<2, 0, true, false>(); }
 //# id=K.cache.revoke.broadcast.L1 props=C06,C01 strength=bounded shape="list of length L=1 under the key, all ids symbolic; neighbour key and the 6 other lists hold one entry of the same id" tier=quick fns=ReactCache::revoke_broadcast_reactor
-#[kani::proof] #[kani::unwind(6)] fn k_cache_revoke_broadcast_l1() { revoke_contract::<2, 1, true>(); }
+#[kani::proof] #[kani::unwind(6)] fn k_cache_revoke_broadcast_l1() { revoke_contract::<2, 1, true, false>(); }
 //# id=K.cache.revoke.broadcast.L2 props=C06,C01 strength=bounded shape="list of length L=2 under the key, all ids symbolic; neighbour key and the 6 other lists hold one entry of the same id" tier=quick fns=ReactCache::revoke_broadcast_reactor
-#[kani::proof] #[kani::unwind(6)] fn k_cache_revoke_broadcast_l2() { revoke_contract::<2, 2, false>(); }
+#[kani::proof] #[kani::unwind(6)] fn k_cache_revoke_broadcast_l2() { revoke_contract::<2, 2, false, false>(); }
 //# id=K.cache.revoke.broadcast.L3 props=C06,C01 strength=bounded shape="list of length L=3 under the key, all ids symbolic; neighbour key and the 6 other lists hold one entry of the same id" tier=thorough fns=ReactCache::revoke_broadcast_reactor
-#[kani::proof] #[kani::unwind(6)] fn k_cache_revoke_broadcast_l3() { revoke_contract::<2, 3, false>(); }
+#[kani::proof] #[kani::unwind(6)] fn k_cache_revoke_broadcast_l3() { revoke_contract::<2, 3, false, false>(); }
 //# id=K.cache.revoke.despawn.L0 props=C06,C01 strength=bounded shape="list of length L=0 under the key, all ids symbolic; neighbour key and the 6 other lists hold one entry of the same id" tier=thorough fns=ReactCache::revoke_despawn_reactor
-#[kani::proof] #[kani::unwind(6)] fn k_cache_revoke_despawn_l0() { revoke_contract::<3, 0, true>(); }
+#[kani::proof] #[kani::unwind(6)] fn k_cache_revoke_despawn_l0() { revoke_contract::<3, 0, true, false>(); }
 //# id=K.cache.revoke.despawn.L1 props=C06,C01 strength=bounded shape="list of length L=1 under the key, all ids symbolic; neighbour key and the 6 other lists hold one entry of the same id" tier=quick fns=ReactCache::revoke_despawn_reactor
-#[kani::proof] #[kani::unwind(6)] fn k_cache_revoke_despawn_l1() { revoke_contract::<3, 1, true>(); }
+#[kani::proof] #[kani::unwind(6)] fn k_cache_revoke_despawn_l1() { revoke_contract::<3, 1, true, false>(); }
 //# id=K.cache.revoke.despawn.L2 props=C06,C01 strength=bounded shape="list of length L=2 under the key, all ids symbolic; neighbour key and the 6 other lists hold one entry of the same id" tier=quick fns=ReactCache::revoke_despawn_reactor
-#[kani::proof] #[kani::unwind(6)] fn k_cache_revoke_despawn_l2() { revoke_contract::<3, 2, true>(); }
+#[kani::proof] #[kani::unwind(6)] fn k_cache_revoke_despawn_l2() { revoke_contract::<3, 2, true, false>(); }
 //# id=K.cache.revoke.despawn.L3 props=C06,C01 strength=bounded shape="list of length L=3 under the key, all ids symbolic; neighbour key and the 6 other lists hold one entry of the same id" tier=thorough fns=ReactCache::revoke_despawn_reactor
-#[kani::proof] #[kani::unwind(6)] fn k_cache_revoke_despawn_l3() { revoke_contract::<3, 3, true>(); }
+#[kani::proof] #[kani::unwind(6)] fn k_cache_revoke_despawn_l3() { revoke_contract::<3, 3, true, false>(); }
 //# id=K.cache.revoke.comp_insertion.L0 props=C06,C01,C07 strength=bounded shape="list of length L=0 under the key, all ids symbolic; neighbour key and the 6 other lists hold one entry of the same id" tier=thorough fns=ReactCache::revoke_component_reactor
-#[kani::proof] #[kani::unwind(6)] fn k_cache_revoke_comp_insertion_l0() { revoke_contract::<4, 0, true>(); }
+#[kani::proof] #[kani::unwind(6)] fn k_cache_revoke_comp_insertion_l0() { revoke_contract::<4, 0, true, false>(); }
 //# id=K.cache.revoke.comp_insertion.L1 props=C06,C01,C07 strength=bounded shape="list of length L=1 under the key, all ids symbolic; neighbour key and the 6 other lists hold one entry of the same id" tier=quick fns=ReactCache::revoke_component_reactor
-#[kani::proof] #[kani::unwind(6)] fn k_cache_revoke_comp_insertion_l1() { revoke_contract::<4, 1, true>(); }
+#[kani::proof] #[kani::unwind(6)] fn k_cache_revoke_comp_insertion_l1() { revoke_contract::<4, 1, true, false>(); }
 //# id=K.cache.revoke.comp_insertion.L2 props=C06,C01,C07 strength=bounded shape="list of length L=2 under the key, all ids symbolic; neighbour key and the 6 other lists hold one entry of the same id" tier=quick fns=ReactCache::revoke_component_reactor
-#[kani::proof] #[kani::unwind(6)] fn k_cache_revoke_comp_insertion_l2() { revoke_contract::<4, 2, true>(); }
+#[kani::proof] #[kani::unwind(6)] fn k_cache_revoke_comp_insertion_l2() { revoke_contract::<4, 2, true, false>(); }
 //# id=K.cache.revoke.comp_insertion.L3 props=C06,C01,C07 strength=bounded shape="list of length L=3 under the key, all ids symbolic; neighbour key and the 6 other lists hold one entry of the same id" tier=thorough fns=ReactCache::revoke_component_reactor
-#[kani::proof] #[kani::unwind(6)] fn k_cache_revoke_comp_insertion_l3() { revoke_contract::<4, 3, true>(); }
+#[kani::proof] #[kani::unwind(6)] fn k_cache_revoke_comp_insertion_l3() { revoke_contract::<4, 3, true, false>(); }
 //# id=K.cache.revoke.comp_mutation.L0 props=C06,C01,C07 strength=bounded shape="list of length L=0 under the key, all ids symbolic; neighbour key and the 6 other lists hold one entry of the same id" tier=thorough fns=ReactCache::revoke_component_reactor
-#[kani::proof] #[kani::unwind(6)] fn k_cache_revoke_comp_mutation_l0() { revoke_contract::<5, 0, true>(); }
+#[kani::proof] #[kani::unwind(6)] fn k_cache_revoke_comp_mutation_l0() { revoke_contract::<5, 0, true, false>(); }
 //# id=K.cache.revoke.comp_mutation.L1 props=C06,C01,C07 strength=bounded shape="list of length L=1 under the key, all ids symbolic; neighbour key and the 6 other lists hold one entry of the same id" tier=quick fns=ReactCache::revoke_component_reactor
-#[kani::proof] #[kani::unwind(6)] fn k_cache_revoke_comp_mutation_l1() { revoke_contract::<5, 1, true>(); }
+#[kani::proof] #[kani::unwind(6)] fn k_cache_revoke_comp_mutation_l1() { revoke_contract::<5, 1, true, false>(); }
 //# id=K.cache.revoke.comp_mutation.L2 props=C06,C01,C07 strength=bounded shape="list of length L=2 under the key, all ids symbolic; neighbour key and the 6 other lists hold one entry of the same id" tier=quick fns=ReactCache::revoke_component_reactor
-#[kani::proof] #[kani::unwind(6)] fn k_cache_revoke_comp_mutation_l2() { revoke_contract::<5, 2, true>(); }
+#[kani::proof] #[kani::unwind(6)] fn k_cache_revoke_comp_mutation_l2() { revoke_contract::<5, 2, true, false>(); }
 //# id=K.cache.revoke.comp_mutation.L3 props=C06,C01,C07 strength=bounded shape="list of length L=3 under the key, all ids symbolic; neighbour key and the 6 other lists hold one entry of the same id" tier=thorough fns=ReactCache::revoke_component_reactor
-#[kani::proof] #[kani::unwind(6)] fn k_cache_revoke_comp_mutation_l3() { revoke_contract::<5, 3, true>(); }
+#[kani::proof] #[kani::unwind(6)] fn k_cache_revoke_comp_mutation_l3() { revoke_contract::<5, 3, true, false>(); }
 //# id=K.cache.revoke.comp_removal.L0 props=C06,C01,C07 strength=bounded shape="list of length L=0 under the key, all ids symbolic; neighbour key and the 6 other lists hold one entry of the same id" tier=thorough fns=ReactCache::revoke_component_reactor
-#[kani::proof] #[kani::unwind(6)] fn k_cache_revoke_comp_removal_l0() { revoke_contract::<6, 0, true>(); }
+#[kani::proof] #[kani::unwind(6)] fn k_cache_revoke_comp_removal_l0() { revoke_contract::<6, 0, true, false>(); }
 //# id=K.cache.revoke.comp_removal.L1 props=C06,C01,C07 strength=bounded shape="list of length L=1 under the key, all ids symbolic; neighbour key and the 6 other lists hold one entry of the same id" tier=quick fns=ReactCache::revoke_component_reactor
-#[kani::proof] #[kani::unwind(6)] fn k_cache_revoke_comp_removal_l1() { revoke_contract::<6, 1, true>(); }
+#[kani::proof] #[kani::unwind(6)] fn k_cache_revoke_comp_removal_l1() { revoke_contract::<6, 1, true, false>(); }
 //# id=K.cache.revoke.comp_removal.L2 props=C06,C01,C07 strength=bounded shape="list of length L=2 under the key, all ids symbolic; neighbour key and the 6 other lists hold one entry of the same id" tier=quick fns=ReactCache::revoke_component_reactor
-#[kani::proof] #[kani::unwind(6)] fn k_cache_revoke_comp_removal_l2() { revoke_contract::<6, 2, true>(); }
+#[kani::proof] #[kani::unwind(6)] fn k_cache_revoke_comp_removal_l2() { revoke_contract::<6, 2, true, false>(); }
 //# id=K.cache.revoke.comp_removal.L3 props=C06,C01,C07 strength=bounded shape="list of length L=3 under the key, all ids symbolic; neighbour key and the 6 other lists hold one entry of the same id" tier=thorough fns=ReactCache::revoke_component_reactor
-#[kani::proof] #[kani::unwind(6)] fn k_cache_revoke_comp_removal_l3() { revoke_contract::<6, 3, true>(); }
+#[kani::proof] #[kani::unwind(6)] fn k_cache_revoke_comp_removal_l3() { revoke_contract::<6, 3, true, false>(); }
 
 //# id=K.cache.revoke.broadcast.L4 props=C06,C01 strength=bounded shape="list of length L=4 under the key, all ids symbolic" tier=thorough fns=ReactCache::revoke_broadcast_reactor
-#[kani::proof] #[kani::unwind(7)] fn k_cache_revoke_broadcast_l4() { revoke_contract::<2, 4, false>(); }
+#[kani::proof] #[kani::unwind(7)] fn k_cache_revoke_broadcast_l4() { revoke_contract::<2, 4, false, false>(); }
 //# id=K.cache.revoke.comp_mutation.L4 props=C06,C01,C07 strength=bounded shape="list of length L=4 under the key, all ids symbolic" tier=thorough fns=ReactCache::revoke_component_reactor
-#[kani::proof] #[kani::unwind(7)] fn k_cache_revoke_comp_mutation_l4() { revoke_contract::<5, 4, true>(); }
+#[kani::proof] #[kani::unwind(7)] fn k_cache_revoke_comp_mutation_l4() { revoke_contract::<5, 4, true, false>(); }
 //# id=K.cache.revoke.despawn.L4 props=C06,C01 strength=bounded shape="list of length L=4 under the key, all ids symbolic" tier=thorough fns=ReactCache::revoke_despawn_reactor
-#[kani::proof] #[kani::unwind(7)] fn k_cache_revoke_despawn_l4() { revoke_contract::<3, 4, true>(); }
+#[kani::proof] #[kani::unwind(7)] fn k_cache_revoke_despawn_l4() { revoke_contract::<3, 4, true, false>(); }
+
+//# id=K.cache.revoke.any_entity_event.L1sib props=C06,C01 strength=bounded shape="list of length 1 under the key (id symbolic) + a list of a SIBLING table keyed by the same type id holding the same id" tier=quick fns=ReactCache::revoke_any_entity_event_reactor
+#[kani::proof] #[kani::unwind(6)] fn k_cache_revoke_any_entity_event_sib_one() { revoke_contract::<0, 1, false, true>(); }
+//# id=K.cache.revoke.resource.L1sib props=C06,C01 strength=bounded shape="list of length 1 under the key (id symbolic) + a list of a SIBLING table keyed by the same type id holding the same id" tier=quick fns=ReactCache::revoke_resource_mutation_reactor
+#[kani::proof] #[kani::unwind(6)] fn k_cache_revoke_resource_sib_one() { revoke_contract::<1, 1, false, true>(); }
+//# id=K.cache.revoke.broadcast.L1sib props=C06,C01 strength=bounded shape="list of length 1 under the key (id symbolic) + a list of a SIBLING table keyed by the same type id holding the same id" tier=quick fns=ReactCache::revoke_broadcast_reactor
+#[kani::proof] #[kani::unwind(6)] fn k_cache_revoke_broadcast_sib_one() { revoke_contract::<2, 1, false, true>(); }
 
 // ===============================================================================================================
 // K.dispatch.*: what a trigger queues (C01, C05, C14).  The schedule_* systems are called directly as functions with the
